@@ -3,7 +3,7 @@
    correspondence runs); Spec.Dec is the independent reading of RFC 1035 §4.1.4 with the
    implementation's strict backward-pointer rule. *)
 From HV Require Import Lib.Base C03.Model C03.Inv C02.Spec C02.Model C02.NameRt C02.EmitName
-     C02.ItemsRt C02.DecSound.
+     C02.ItemsRt C02.DecSound C02.RecRt C02.MsgRt.
 Open Scope N_scope.
 
 (* The byte image of a label sequence determines the sequence: byte-equality of compression
@@ -74,11 +74,33 @@ Theorem C02_reference_decoder_sound : forall buf pos ls e,
 Proof. exact dec_name_sound. Qed.
 Print Assumptions C02_reference_decoder_sound.
 
-(* PARTIAL: the record- and message-level statement
-     encode L m = OBytes b -> not truncated -> reading b back yields every question and record of m
-   is not yet a theorem; it is checked per case by the executable re-reader [check_msg] on the
-   implementation's own bytes (Check.v), and the name level above is its only non-trivial part:
-   fixed-width fields and RDLENGTH are positional. *)
+(* Record level: whatever Record::emit writes — from any reachable encoder state [G st F] — reads
+   back: owner name through the compression table, TYPE/CLASS/TTL, RDLENGTH equal to the actual
+   RDATA length, every RDATA part (raw runs byte for byte, embedded names in their encoding mode). *)
+Theorem C02_record_roundtrip : forall F r st st',
+  G st F -> rec_wf r -> emit_rec r st = Ok st' ->
+  rec_at (buf st') (off st) r (off st') F /\ G st' F.
+Proof. intros F r st st' HG Hw E. destruct (emit_rec_rt F r st st' HG Hw E) as (A & _ & _ & B). auto. Qed.
+Print Assumptions C02_record_roundtrip.
+
+(* Message level, any size limit: if the encoder succeeds, a reader finds in the output: a header
+   whose counts are the numbers of records actually present and whose TC flag is the original one
+   or-ed with "something was dropped"; every question; exactly a prefix of every section (and OPT /
+   TSIG if kept), each record readable field by field; and the last record ends exactly at the end
+   of the output (no bytes left over).  With a limit that drops nothing this is
+   decode (encode m) = m for the modelled message structure. *)
+Theorem C02_message_roundtrip : forall m L b,
+  msg_wf m -> encode L m = OBytes b -> msg_readable b m.
+Proof.
+  intros m L b Hw E. unfold encode in E.
+  destruct (emit_message m (enc_new L)) as [st|] eqn:Em; [|discriminate]. inversion E; subst.
+  apply (emit_message_rt m L st Hw Em).
+Qed.
+Print Assumptions C02_message_roundtrip.
+
+(* Scope of the message-level theorem: RDATA is the part sequence every RData::emit reduces to;
+   the per-type RDATA codecs, OPT<->Edns / TSIG placement and the extended-rcode split are outside
+   the model and are judged on the implementation by the harness's deep-comparison oracle. *)
 
 (* Non-vacuity: three names sharing a suffix, mixed case, one uncompressed in between. *)
 Example C02_example :
